@@ -336,7 +336,7 @@ func init() {
 		},
 	}
 	var c16quick, c16all []int
-	for ci := 0; ci < 8; ci++ {
+	for ci := 0; ci < 9; ci++ {
 		for k := 0; k < 4; k++ {
 			c16all = append(c16all, ci*8+k) // token lifecycle, origin absent / null
 		}
@@ -344,7 +344,7 @@ func init() {
 			c16all = append(c16all, 100+ci*8+k) // origin policy
 		}
 	}
-	c16quick = []int{0*8 + 0, 3*8 + 1, 4*8 + 0, 5*8 + 2, 6*8 + 0, 7*8 + 1, 100 + 1*8 + 7, 100 + 2*8 + 4, 100 + 2*8 + 7}
+	c16quick = []int{0*8 + 0, 3*8 + 1, 4*8 + 0, 5*8 + 2, 6*8 + 0, 7*8 + 1, 8*8 + 0, 100 + 1*8 + 7, 100 + 2*8 + 4, 100 + 2*8 + 7}
 	csrfPkgs := []string{"github.com/gofiber/fiber/v3", "github.com/gofiber/fiber/v3/internal/memory", "github.com/gofiber/fiber/v3/middleware/session", "github.com/gofiber/fiber/v3/internal/storage/memory"}
 	props["C16"] = PropSpec{
 		ID: "C16",
@@ -352,8 +352,8 @@ func init() {
 			{Rel: "middleware/csrf", Dir: "csrf", Entry: "VH_C16_unsafe", Cases: tierCases(c16quick, c16all), Reach: []string{"reached", "rejected"}, MaxPaths: 300000, ExtraPkgs: csrfPkgs},
 		},
 		Bounds: map[string]string{
-			"quick":    "8 configurations (no/exact/wildcard trusted origins, SingleUseToken, external storage with lookup faults, session-backed tokens); history: safe request issues a token, time gap 0..12 s against IdleTimeout 10 s, optional earlier use, then an unsafe request whose cookie/header token is none / the issued one / forged, with Origin absent / null / scheme://host[:8443] (host symbolic, 4..6 bytes) or a Referer scheme://host[:8443]/path (host 4..6, path 0..5 symbolic bytes), on http or https",
-			"thorough": "all 8 configurations x 4 origin kinds x {http, https}",
+			"quick":    "9 configurations (no/exact/wildcard trusted origins, SingleUseToken, external storage with lookup faults, session-backed tokens, CookieSessionOnly); history: safe request issues a token, time gap 0..12 s against IdleTimeout 10 s, optional earlier use, then an unsafe request whose cookie/header token is none / the issued one / forged, with Origin absent / null / scheme://host[:8443] (host symbolic, 4..6 bytes) or a Referer scheme://host[:8443]/path (host 4..6, path 0..5 symbolic bytes), on http or https",
+			"thorough": "all 9 configurations x 4 origin kinds x {http, https}",
 		},
 		Assumptions: []string{
 			"header extractor (default); tokens are generated by a counter-based KeyGenerator (utils.UUIDv4 needs crypto/rand)",
